@@ -86,6 +86,8 @@ func runC08(c *core.Ctx) {
 	c.RuleDoc("R08.5", "a non-name parameter reaches every delegate of a helper in the same form")
 	c.RuleDoc("R08.6", "recursive removal classifies entries without following symbolic links")
 	c.RuleDoc("R08.7", "only SeekFile moves a file's position")
+	c.RuleDoc("R08.11", "a helper asks for the operation's own interface before MountFS")
+	c.RuleDoc("R08.12", "Create's fallback uses os.Create's flags")
 	c.RuleDoc("R08.8", "OpenFile falls back to Open only for flag == FlagReadOnly")
 	c.RuleDoc("R08.10", "the fallback Sub view joins base and name with path.Join")
 	c.RuleDoc("R08.9", "no helper takes one Read, or a short count, for the whole content")
@@ -154,6 +156,8 @@ func runC08(c *core.Ctx) {
 		r08NoSeekEmulation(c, p, helpers)
 		readDiscipline(c, p, "R08.9", pkgFuncs(p, ""))
 		r08OpenFallback(c, p)
+		r08OwnCapabilityFirst(c, p, helpers)
+		r08CreateFlags(c, p)
 		r08SubViewJoins(c, p, "R08.10")
 	}
 	c.Floor("R08.1", 40)
@@ -163,6 +167,8 @@ func runC08(c *core.Ctx) {
 	c.Floor("R08.6", 1)
 	c.Floor("R08.7", 8)
 	c.Floor("R08.8", 1)
+	c.Floor("R08.11", 10)
+	c.Floor("R08.12", 1)
 	c.Floor("R08.10", 2)
 }
 
@@ -562,5 +568,95 @@ func r08SubViewJoins(c *core.Ctx, p *load.Program, rule string) {
 	}
 	if n == 0 {
 		c.Hard("anchor: results of subFS.Mount")
+	}
+}
+
+// r08OwnCapabilityFirst (R08.11): a helper that probes both the operation's own interface and MountFS asks the file
+// system for its OWN method first. With MountFS first, a file system that exposes both (the generic Sub view, which
+// refuses to remove its root; a wrapper protecting a name) never has its own method called.
+func r08OwnCapabilityFirst(c *core.Ctx, p *load.Program, helpers []*ssa.Function) {
+	mountI := ifaceOf(p, "", "MountFS")
+	if mountI == nil {
+		c.Hard("anchor: MountFS")
+		return
+	}
+	n := 0
+	for _, fn := range helpers {
+		if len(fn.Params) == 0 {
+			continue
+		}
+		var own, mnt []*ssa.TypeAssert
+		ssax.Instrs(fn, func(ins ssa.Instruction) {
+			ta, ok := ins.(*ssa.TypeAssert)
+			if !ok || ta.X != ssa.Value(fn.Params[0]) {
+				return
+			}
+			it, ok := ta.AssertedType.Underlying().(*types.Interface)
+			if !ok {
+				return
+			}
+			if types.Identical(it, mountI) {
+				mnt = append(mnt, ta)
+			} else {
+				own = append(own, ta)
+			}
+		})
+		if len(own) == 0 || len(mnt) == 0 {
+			continue
+		}
+		n++
+		key := fname(fn) + "|own-capability-probed-before-MountFS"
+		good := true
+		for _, m := range mnt {
+			dominated := false
+			for _, o := range own {
+				if ssax.Dominates(o, m) {
+					dominated = true
+				}
+			}
+			if !dominated {
+				good = false
+			}
+		}
+		c.Check(good, "R08.11", key, p.Pos(fn.Pos()), "the operation's own interface is asserted before MountFS",
+			fmt.Sprintf("%s asks for MountFS before the operation's own interface: a file system exposing both never has its own method called — the generic Sub view's Remove, which refuses its root, is bypassed and Remove(view, \".\") deletes the directory behind the view", fname(fn)))
+	}
+	if n < 10 {
+		c.Hard("anchor: helpers probing both an own capability and MountFS (found %d)", n)
+	}
+}
+
+// r08CreateFlags (R08.12): the fallback of Create opens with the flags of os.Create — O_RDWR|O_CREATE|O_TRUNC: with a
+// write-only handle Create-write-seek-read works on file systems exposing CreateFS and fails on the others.
+func r08CreateFlags(c *core.Ctx, p *load.Program) {
+	fn := p.Func("", "Create")
+	if fn == nil {
+		c.Hard("anchor: helper Create")
+		return
+	}
+	rw, ok1 := flagConst(p, "FlagReadWrite")
+	cr, ok2 := flagConst(p, "FlagCreate")
+	tr, ok3 := flagConst(p, "FlagTruncate")
+	if !ok1 || !ok2 || !ok3 {
+		c.Hard("anchor: open flag constants")
+		return
+	}
+	n := 0
+	ssax.Instrs(fn, func(ins ssa.Instruction) {
+		cl, ok := ins.(*ssa.Call)
+		if !ok {
+			return
+		}
+		callee := ssax.StaticCallee(cl)
+		if callee == nil || callee.Name() != "OpenFile" || len(cl.Call.Args) != 4 {
+			return
+		}
+		n++
+		k, isK := ssax.ConstInt(cl.Call.Args[2])
+		c.Check(isK && k == rw|cr|tr, "R08.12", "hackpadfs.Create|fallback-flags-are-os.Create's", p.Pos(cl.Pos()), "the fallback opens with FlagReadWrite|FlagCreate|FlagTruncate",
+			"hackpadfs.Create falls back to OpenFile with other flags than os.Create's O_RDWR|O_CREATE|O_TRUNC: on a file system without CreateFS the handle cannot be read back (Create, write, Seek(0), read fails), on one with CreateFS it can — the result depends on the capability subset")
+	})
+	if n == 0 {
+		c.Hard("anchor: OpenFile fallback of Create")
 	}
 }
